@@ -534,16 +534,19 @@ Lemma run_wops_app_C : forall h1 rest w, Cst client op comp w -> Forall c06_op h
   28 + 4 * (len (w_buf w) + ops_cost h1) <= max_int ->
   run_wops (h1 ++ rest) w =
     (fst (run_wops h1 w) ++ fst (run_wops rest (snd (run_wops h1 w))), snd (run_wops rest (snd (run_wops h1 w)))) /\
-  Cst client op comp (snd (run_wops h1 w)) /\ length (fst (run_wops h1 w)) = length h1.
+  Cst client op comp (snd (run_wops h1 w)) /\ length (fst (run_wops h1 w)) = length h1 /\
+  len (w_buf (snd (run_wops h1 w))) <= len (w_buf w) + ops_cost h1.
 Proof.
   induction h1 as [|o h1 IH]; intros rest w Hc Hops Hb.
-  - cbn [app run_wops fst snd length]. destruct (run_wops rest w). auto.
+  - cbn [app run_wops fst snd length ops_cost]. destruct (run_wops rest w). cbn [fst snd app].
+    split; [reflexivity|]. split; [assumption|]. split; [reflexivity|]. lia.
   - inversion Hops as [|? ? Ho Hr]; subst. cbn [ops_cost] in Hb.
     destruct (run_op_C o w Hc Ho ltac:(lia)) as (o1 & w1 & Hrun & Hc1 & Hl).
-    destruct (IH rest w1 Hc1 Hr ltac:(lia)) as (E & Hc2 & Hlen).
+    destruct (IH rest w1 Hc1 Hr ltac:(lia)) as (E & Hc2 & Hlen & Hbl).
     cbn [app]. rewrite !run_wops_cons, Hrun, E.
     destruct (run_wops h1 w1) as [os1 w2]. cbn [fst snd] in *.
-    destruct (run_wops rest w2) as [os2 w3]. cbn [fst snd app length]. auto.
+    destruct (run_wops rest w2) as [os2 w3]. cbn [fst snd app length ops_cost].
+    split; [reflexivity|]. split; [assumption|]. split; [rewrite Hlen; reflexivity|]. lia.
 Qed.
 End Run.
 
@@ -601,7 +604,7 @@ Lemma run_split client op comp h1 x h2 w0 wx :
   snd r = snd (run_wops h2 (wx w1)).
 Proof.
   intros Hc Hb0 Hops Hbud Hx w1 r.
-  destruct (run_wops_app_C client op comp h1 (x :: h2) w0 Hc Hops) as (E & Hc1 & Hlen).
+  destruct (run_wops_app_C client op comp h1 (x :: h2) w0 Hc Hops) as (E & Hc1 & Hlen & _).
   { rewrite Hb0, len_nil. lia. }
   subst r. rewrite E. fold w1. rewrite run_wops_cons, Hx.
   destruct (run_wops h2 (wx w1)) as [os2 w2]. cbn [fst snd].
@@ -722,4 +725,127 @@ Proof.
   - exact (c_dest _ _ _ _ Hc1).
   - wsimpl. rewrite (c_op _ _ _ _ Hc1). assumption.
   - destruct (c_wf _ _ _ _ Hc1) as (_ & _ & Hmk). exact Hmk.
+Qed.
+
+(* ------------------------------------------------------------------ a final Flush leaves a message boundary *)
+(* not dirty = nothing of a message is under way *)
+Definition clean (w : writer) : Prop := w_dirty w = false -> w_fseq w = 0 /\ w_buf w = [].
+
+Lemma run_op_clean client op comp o w : Cst client op comp w -> c06_op o ->
+  28 + 4 * (len (w_buf w) + op_cost o) <= max_int -> clean w ->
+  clean (snd (fst (run_op o w))) /\ (o = WFlush -> boundary (snd (fst (run_op o w)))).
+Proof.
+  intros Hc Ho Hb Hcl. destruct o as [p|data sizes|p| | |n| |xs|st o|o]; cbn [c06_op op_cost run_op] in *; try contradiction.
+  - destruct (write_C client op comp p w Hc Ho ltac:(lia)) as (w1 & fs & Hw & _ & Hd & _).
+    rewrite Hw. cbn [fst snd]. split; [intros Hx; congruence|discriminate].
+  - destruct (read_from_C client op comp data sizes w Hc Ho ltac:(lia)) as (w1 & s' & fs & Hw & _ & Hd).
+    rewrite Hw. cbn [fst snd]. split; [intros Hx; congruence|discriminate].
+  - destruct Ho as [Hp Hl]. destruct (w_buf w) as [|b0 r0] eqn:Eb.
+    + destruct (Step_write_through client op comp p w Hc Eb Hp Hl) as (Hw & _ & Hd).
+      rewrite Hw. cbn [fst snd]. split; [intros Hx; congruence|discriminate].
+    + rewrite (write_through_notempty p w (c_err _ _ _ w Hc)) by (rewrite Eb; discriminate).
+      cbn [fst snd]. split; [exact Hcl|discriminate].
+  - destruct (w_buf w) as [|b0 r0] eqn:Eb.
+    + unfold flush_fragment, w_n. rewrite Eb, (c_err _ _ _ w Hc). cbn [len length N.of_nat N.eqb orb fst snd].
+      split; [exact Hcl|discriminate].
+    + destruct (Step_flush_fragment client op comp w Hc) as [Hw _]; [rewrite Eb; discriminate|].
+      rewrite Hw. cbn [fst snd]. split; [|discriminate]. intros Hx. wsimpl.
+      destruct (Hcl Hx) as [_ Hy]. congruence.
+  - destruct (w_dirty w) eqn:Ed; [|destruct (w_buf w) as [|b0 r0] eqn:Eb].
+    + rewrite (flush_C client op comp w Hc (or_introl Ed)). cbn [fst snd].
+      split; [intros _; split; reflexivity|]. intros _. constructor; reflexivity.
+    + rewrite (flush_nothing w Ed Eb). cbn [fst snd]. split; [exact Hcl|].
+      intros _. destruct (Hcl Ed) as [Hf _]. constructor; try assumption. exact (c_err _ _ _ w Hc).
+    + destruct (Hcl Ed) as [_ Hy]. congruence.
+  - destruct (Step_grow client op comp n w Hc ltac:(lia)) as (w1 & Hg & _ & _ & Hf1 & Hb1 & _ & Hd1 & _).
+    rewrite Hg. cbn [fst snd]. split; [|discriminate]. unfold clean. rewrite Hf1, Hb1, Hd1. exact Hcl.
+  - cbn [fst snd]. split; [exact Hcl|discriminate].
+Qed.
+
+Lemma run_wops_clean client op comp : forall h w, Cst client op comp w -> Forall c06_op h ->
+  28 + 4 * (len (w_buf w) + ops_cost h) <= max_int -> clean w -> clean (snd (run_wops h w)).
+Proof.
+  induction h as [|o h IH]; intros w Hc Hops Hb Hcl; [exact Hcl|].
+  inversion Hops as [|? ? Ho Hr]; subst. cbn [ops_cost] in Hb.
+  destruct (run_op_C client op comp o w Hc Ho ltac:(lia)) as (o1 & w1 & Hrun & Hc1 & Hl).
+  destruct (run_op_clean client op comp o w Hc Ho ltac:(lia) Hcl) as [Hcl1 _]. rewrite Hrun in Hcl1. cbn [fst snd] in Hcl1.
+  rewrite run_wops_cons, Hrun. specialize (IH w1 Hc1 Hr ltac:(lia) Hcl1).
+  destruct (run_wops h w1) as [os w2]. exact IH.
+Qed.
+
+Lemma flush_ends_at_boundary client op comp h w : Cst client op comp w -> Forall c06_op h ->
+  28 + 4 * (len (w_buf w) + ops_cost h) <= max_int -> clean w ->
+  boundary (snd (run_wops (h ++ [WFlush]) w)).
+Proof.
+  intros Hc Hops Hb Hcl.
+  destruct (run_wops_app_C client op comp h [WFlush] w Hc Hops Hb) as (E & Hc1 & _ & Hbl).
+  pose proof (run_wops_clean client op comp h w Hc Hops Hb Hcl) as Hcl1.
+  rewrite E. cbn [snd]. set (w1 := snd (run_wops h w)) in *.
+  destruct (run_op_clean client op comp WFlush w1 Hc1 I ltac:(cbn [op_cost]; lia) Hcl1) as [_ Hbd].
+  specialize (Hbd eq_refl). rewrite run_wops_cons.
+  destruct (run_op WFlush w1) as [[o1 w2] stop]. cbn [fst snd] in Hbd. destruct stop; exact Hbd.
+Qed.
+
+Lemma ops_cost_app a b : ops_cost (a ++ b) = ops_cost a + ops_cost b.
+Proof. induction a as [|o a IH]; cbn [app ops_cost]; [reflexivity|]. rewrite IH. lia. Qed.
+
+(* from the constructors: after h ++ [Flush] the writer stands at a message boundary *)
+Lemma constructed_flush_boundary h state op n masks exts comp w00 :
+  (new_writer_buffer dnil state op n masks = inr w00 \/ new_writer_buffer_size dnil state op n masks = inr w00 \/
+   new_writer_size dnil state op n masks = inr w00) ->
+  n + 14 <= max_int -> op < 16 -> Forall wf_key masks -> exts_comp exts comp ->
+  Forall c06_op h -> 28 + 4 * ops_cost h <= max_int ->
+  boundary (snd (run_wops (h ++ [WFlush]) (set_extensions exts w00))).
+Proof.
+  intros Hn Hmax Ho Hm Hx Hops Hbud.
+  destruct (constructors_nwb _ _ _ _ _ _ Hn Hmax) as (rawlen & Hr & Hnwb).
+  destruct (constructed_Cst state op rawlen masks exts comp w00 Hnwb Hr Ho Hm Hx) as [Hc Hb0].
+  apply (flush_ends_at_boundary _ _ _ h _ Hc Hops); [rewrite Hb0, len_nil; lia|].
+  destruct (new_writer_buffer_fresh _ _ _ _ _ _ Hnwb) as (_ & _ & _ & _ & _ & E6 & _ & E8 & _).
+  intros _. wsimpl. split; assumption.
+Qed.
+
+(* SetExtensions after a final Flush: no side condition left *)
+Theorem set_ext_after_flush_history h1 h2 xs state op n masks exts comp w00 :
+  (new_writer_buffer dnil state op n masks = inr w00 \/ new_writer_buffer_size dnil state op n masks = inr w00 \/
+   new_writer_size dnil state op n masks = inr w00) ->
+  n + 14 <= max_int -> op < 16 -> Forall wf_key masks -> exts_comp exts comp ->
+  Forall c06_op h1 -> 28 + 4 * ops_cost h1 <= max_int ->
+  let w0 := set_extensions exts w00 in
+  let w1 := snd (run_wops (h1 ++ [WFlush]) w0) in
+  exists f0, new_writer_buffer dnil (w_state w1) op (w_rawlen w1) (w_masks w1) = inr f0 /\
+    let f := flush_mode (w_noflush w1) (set_extensions xs f0) in
+    let r := run_wops ((h1 ++ [WFlush]) ++ WSetExt xs :: h2) w0 in
+    let rf := run_wops h2 f in
+    dest_log (w_dest (snd r)) = dest_log (w_dest w1) ++ dest_log (w_dest (snd rf)) /\
+    firstn (length (h1 ++ [WFlush])) (fst r) = fst (run_wops (h1 ++ [WFlush]) w0) /\
+    skipn (S (length (h1 ++ [WFlush]))) (fst r) = map (shift_calls (dest_ncalls (w_dest w1))) (fst rf) /\
+    snd r = redest (snd rf) (w_dest (snd r)).
+Proof.
+  intros Hn Hmax Ho Hm Hx Hops Hbud w0 w1.
+  destruct (constructed_flush_boundary h1 state op n masks exts comp w00 Hn Hmax Ho Hm Hx Hops Hbud) as [B1 B2 B3 B4].
+  apply (set_ext_history (h1 ++ [WFlush]) h2 xs state op n masks exts comp w00); try assumption.
+  - apply Forall_app. split; [assumption|]. constructor; [exact I|constructor].
+  - rewrite ops_cost_app. cbn [ops_cost op_cost]. lia.
+Qed.
+
+Theorem history_after_flush_set_ext h1 h2 xs comp' state op n masks exts comp w00 :
+  (new_writer_buffer dnil state op n masks = inr w00 \/ new_writer_buffer_size dnil state op n masks = inr w00 \/
+   new_writer_size dnil state op n masks = inr w00) ->
+  n + 14 <= max_int -> op < 16 -> Forall wf_key masks -> exts_comp exts comp -> exts_comp xs comp' ->
+  Forall c06_op h1 -> 28 + 4 * ops_cost h1 <= max_int ->
+  Forall c06_op h2 -> 28 + 4 * ops_cost h2 <= max_int ->
+  let w0 := set_extensions exts w00 in
+  let w1 := snd (run_wops (h1 ++ [WFlush]) w0) in
+  let r := run_wops ((h1 ++ [WFlush]) ++ WSetExt xs :: h2) w0 in
+  let k := dest_ncalls (w_dest w1) in
+  c06_monitor (client_side state) op comp' (w_buflen w1)
+    (steps_of h2 (map (unshift_calls k) (skipn (S (length (h1 ++ [WFlush]))) (fst r))))
+    (drop k (dest_log (w_dest (snd r)))) = true.
+Proof.
+  intros Hn Hmax Ho Hm Hx Hx' Hops Hbud Hops2 Hbud2 w0 w1.
+  destruct (constructed_flush_boundary h1 state op n masks exts comp w00 Hn Hmax Ho Hm Hx Hops Hbud) as [B1 B2 B3 B4].
+  apply (history_after_set_ext (h1 ++ [WFlush]) h2 xs comp' state op n masks exts comp w00); try assumption.
+  - apply Forall_app. split; [assumption|]. constructor; [exact I|constructor].
+  - rewrite ops_cost_app. cbn [ops_cost op_cost]. lia.
 Qed.
